@@ -292,7 +292,9 @@ def pool_rules(R, lib, zs, full=False):
     cops = {'ace_time::extended::operator<': lambda ev, r, a: a[0] < a[1], 'ace_time::extended::operator>': lambda ev, r, a: a[0] > a[1],
             'ace_time::extended::operator<=': lambda ev, r, a: a[0] <= a[1], 'ace_time::extended::operator>=': lambda ev, r, a: a[0] >= a[1],
             'ace_time::extended::operator==': lambda ev, r, a: a[0] == a[1], 'ace_time::logging::printf': lambda ev, r, a: None}
-    pintr = {'_compare_date_tuple': lambda ev, r, a: (a[0] > a[1]) - (a[0] < a[1])}
+    from .pyeval import PyEval, PObj, Raised as PRaised
+    pev = PyEval(R.cfg, max_steps=2000000)
+    DT_ = pev.global_name(zs, 'DateTuple', 'tools/zonedb/zone_specifier.py')
 
     def mk_pool(front, cands, agent, prior_slot):
         objs = []
@@ -346,13 +348,16 @@ def pool_rules(R, lib, zs, full=False):
                                        and a['mIndexFree'] == front + (1 if prior_slot else 0) + length + 1 and a['mIndexPrior'] == front)
                         except Raised as r_:
                             got_c, rest_ok = ['raise:' + r_.what[:40]], True
-                        lst = [AObj({'transitionTime': t}, oid='c%d' % j, cls='Transition') for j, t in enumerate(times)]
-                        new = AObj({'transitionTime': agent}, oid='new', cls='Transition')
+                        # the Python side, interpreted over its ast on objects of the module's own Transition class whose times are date
+                        # tuples one day apart per rank
+                        lst = [PObj(zs, 'Transition', {'transitionTime': pev.apply(DT_, [], dict(y=2000, M=1, d=1 + t, ss=0, f='w')), 'oid': 'c%d' % j}) for j, t in enumerate(times)]
+                        new = PObj(zs, 'Transition', {'transitionTime': pev.apply(DT_, [], dict(y=2000, M=1, d=1 + agent, ss=0, f='w')), 'oid': 'new'})
                         try:
-                            ret_ = AEval(module=zs, intrinsics=pintr).call_function(pname, [lst, new])
-                            got_p = [o.oid for o in (ret_ if isinstance(ret_, list) else lst)]
-                        except Raised as r_:
-                            got_p = ['raise:' + r_.what[:40]]
+                            pev.steps = 0
+                            ret_ = pev.call(zs, pname, [lst, new])
+                            got_p = [o.attrs['oid'] for o in (ret_ if isinstance(ret_, list) else lst)]
+                        except PRaised as r_:
+                            got_p = ['raise:' + str(r_.what)[:40]]
                         if got_c != got_p or not rest_ok:
                             nbad += 1
                             if first is None:
